@@ -176,8 +176,40 @@ def run_c12(F, R, tier='quick'):
     R.floor('D-out', 28)
     offset_invariance(F, R, tier)
     R.floor('D-shift', 4)
-    R.decline('offset invariance of CorrelationTrendIndicator is not decided: n·Σx² − (Σx)² is invariant only through an algebraic cancellation of two moving terms')
-    R.decline('negation symmetry (Min <-> -Max, Rsi -> 100 - Rsi, ...) is not decided: it needs pairing of mirrored branches')
+    # negation clause, for the members whose code has no mirrored branches: parity typing (every float is ODD, EVEN or zero under
+    # x -> -x; sums need equal parity, products add parities, roots / logarithms / orderings need EVEN operands)
+    from .e_typing import Parity, ODD
+    for n in ('Vsct', 'Vst', 'CorrelationTrendIndicator', 'TrendFlex', 'ReFlex'):
+        v = views.get(n)
+        if v is None:
+            R.violation('P-out', n, 'view %s not found' % n)
+            continue
+        dom, tau, out, m = analyse_view(F, v, Parity)
+        ok = True
+        for rule, msg, term in dom.complaints:
+            ok = False
+            R.violation(rule, '%s:%s' % (n, _h(term)), '%s: %s' % (msg, term), v.file)
+        R.ob('P-out', n, ok and out == ODD, 'every operation is parity-consistent and no ordering test moves with the sign of the input: negating every input negates the output'
+             if ok and out == ODD else 'output parity is %s, the property needs ODD (negated input, negated output)' % out, v.file)
+    R.floor('P-out', 5)
+    # offset clause for CorrelationTrendIndicator: the shift analysis cannot see the cancellation inside n·Σx² − (Σx)², but the clause
+    # is a consequence of the structure C06 verifies: the five sums run over the whole window with t = position, and the reported
+    # value is Pearson's r = (nΣxt − ΣxΣt)/sqrt((nΣx² − (Σx)²)(nΣt² − (Σt)²)), whose numerator and first factor are n²·cov(x,t) and
+    # n²·var(x) -- both unchanged by x -> x + b -- guarded by the variance terms only. Those structural premises are checked here.
+    from .e_trend import cti_rules
+    n0 = len(R.obligations)
+    cti_rules(F, R)
+    cti_ok = all(o[2] for o in R.obligations[n0:]) and any(o[0] == 'CTI-r' for o in R.obligations[n0:])
+    R.ob('D-shift-structure', 'CorrelationTrendIndicator', cti_ok,
+         'the reported value is the centred Pearson ratio of window sums: invariant under a common offset when n is the number of summed values (real arithmetic)'
+         if cti_ok else 'the centred-ratio structure the offset clause rests on is not verified (see the CTI-* findings)')
+    if cti_ok:
+        nk = getattr(cti_rules, 'n_kind', '?')
+        R.ob('D-shift-structure', 'CorrelationTrendIndicator:n-is-window-length', nk == 'count',
+             'n is the number of values the sums run over' if nk == 'count' else
+             'n is the configured window length while the sums run over the k <= N values present: before the window is full '
+             'n·Σx² − (Σx)² and n·Σxt − ΣxΣt move with a common offset of the inputs (CTI(4) on 1,2 reports 0.870388, on 11,12 0.626372)')
+    R.decline('negation symmetry of the views with mirrored branches (Min <-> -Max, Rsi -> 100 - Rsi, MyRSI, NET, HLNormalizer) is not decided: it needs pairing of mirrored branches; decided for Vsct, Vst, CTI, TrendFlex, ReFlex by parity typing')
 
 
 def run_c10(F, R):
